@@ -23,7 +23,7 @@ pub fn tables() -> Vec<(&'static str, String)> {
 /// Address-space ceiling for child processes (KiB): 3 GiB.
 pub const ULIMIT_KIB: u64 = 3 * 1024 * 1024;
 /// Programs that run longer than this are classified "does not terminate" and discarded.
-pub const NONTERM_SECS: u64 = 6;
+pub const NONTERM_SECS: u64 = 3;
 
 fn parse_only(src: &str) -> String {
     use succinctly::jq::{parse, parse_program, parse_program_with_mode, parse_with_mode, ParserMode};
@@ -129,6 +129,119 @@ fn guard(a: &[&str]) -> String {
     }
 }
 
+/// Evaluate a batch of (program, input) pairs in one child process under the memory ceiling.
+fn ev_batch(items: &[(String, String)]) -> String {
+    let mut spawns = 0usize;
+    let mut nonterm = 0usize;
+    let mut errs = 0usize;
+    let mut work = vec![(0usize, items.len())];
+    while let Some((lo, hi)) = work.pop() {
+        if lo >= hi {
+            continue;
+        }
+        let exe = match std::env::current_exe() {
+            Ok(e) => e,
+            Err(_) => return "HARNESS-ERROR current_exe".into(),
+        };
+        let mut cmd = std::process::Command::new("sh");
+        cmd.arg("-c").arg(format!("ulimit -v {ULIMIT_KIB}; exec \"$0\" replay")).arg(&exe);
+        let mut input = String::new();
+        for (p, i) in &items[lo..hi] {
+            input.push_str(&format!("C30 ev {p} {i}\n"));
+        }
+        spawns += 1;
+        let budget = NONTERM_SECS * 3 + (hi - lo) as u64 / 20;
+        let out = match crate::c19::run_child(cmd, input.as_bytes(), budget) {
+            Ok(o) => o,
+            Err(e) => return format!("HARNESS-ERROR {e}"),
+        };
+        let died = out.timed_out || out.signal.is_some() || out.code != Some(0);
+        if died {
+            if hi - lo == 1 {
+                if out.timed_out {
+                    nonterm += 1;
+                    continue;
+                }
+                let what = match out.signal {
+                    Some(sg) => format!("ABORT SIGNAL:{sg} {}", crate::c19::panic_site(&out.stderr)),
+                    None => format!("ABORT EXIT:{}", out.code.unwrap_or(-1)),
+                };
+                return format!("{what} @{lo} {} {}", items[lo].0, items[lo].1);
+            }
+            let mid = lo + (hi - lo) / 2;
+            work.push((mid, hi));
+            work.push((lo, mid));
+            continue;
+        }
+        let text = String::from_utf8_lossy(&out.stdout);
+        let mut k = lo;
+        for line in text.lines() {
+            let Some((_, ans)) = line.split_once('\t') else { continue };
+            if ans.starts_with("PANIC") || ans.starts_with("ABORT") || ans.starts_with("TIMEOUT") {
+                return format!("{ans} @{k} {} {}", items[k.min(hi - 1)].0, items[k.min(hi - 1)].1);
+            }
+            if ans.starts_with("NONTERM") {
+                nonterm += 1;
+            }
+            if ans.starts_with("ERR") {
+                errs += 1;
+            }
+            k += 1;
+        }
+        if k != hi {
+            return format!("HARNESS-ERROR batch answered {} of {} lines", k - lo, hi - lo);
+        }
+    }
+    format!("OK n={} nonterm={nonterm} parse_errors={errs} spawns={spawns}", items.len())
+}
+
+/// Several programs through one CLI process.
+fn cli_multi(tool: &str, progs: &[String], input: &[u8]) -> String {
+    let mut spawns = 0usize;
+    let mut nonterm = 0usize;
+    let mut worst = 0i32;
+    let mut work = vec![(0usize, progs.len())];
+    while let Some((lo, hi)) = work.pop() {
+        if lo >= hi {
+            continue;
+        }
+        let combined = if hi - lo == 1 {
+            progs[lo].clone()
+        } else {
+            progs[lo..hi].iter().map(|p| format!("(try ({p}) catch \"E\")")).collect::<Vec<_>>().join(", ")
+        };
+        spawns += 1;
+        let budget = NONTERM_SECS * 2;
+        let r = if tool == "yq" {
+            cli(&["yq", "-o", "json", "--", &combined], input, budget, Some(ULIMIT_KIB))
+        } else {
+            cli(&["jq", "-c", "--", &combined], input, budget, Some(ULIMIT_KIB))
+        };
+        let mut bad = r.starts_with("PANIC") || r.starts_with("ABORT");
+        let timed_out = r == "TIMEOUT";
+        if let Some(rest) = r.strip_prefix("EXIT:") {
+            let code: i32 = rest.split(' ').next().unwrap_or("").parse().unwrap_or(-1);
+            if ![0, 1, 2, 3, 5].contains(&code) {
+                bad = true;
+            }
+            worst = worst.max(code);
+        }
+        if bad || timed_out {
+            if hi - lo == 1 {
+                if timed_out {
+                    nonterm += 1;
+                    continue;
+                }
+                return format!("{} @{lo} {}", if r.starts_with("EXIT:") { format!("ABORT {r}") } else { r }, hex_bytes(progs[lo].as_bytes()));
+            }
+            let mid = lo + (hi - lo) / 2;
+            work.push((mid, hi));
+            work.push((lo, mid));
+        }
+    }
+    format!("EXIT:{worst} n={} nonterm={nonterm} spawns={spawns}", progs.len())
+}
+
 pub fn exec(a: &[&str]) -> String {
     match a[0] {
         "parse" => match String::from_utf8(parse_bytes(a[1])) {
@@ -152,6 +265,21 @@ pub fn exec(a: &[&str]) -> String {
             } else {
                 r
             }
+        }
+        // evb <prog>:<input>,<prog>:<input>,…  — one child process (ulimit -v) for the whole batch,
+        // bisected when the child dies or the batch times out
+        "evb" => {
+            let items: Vec<(String, String)> =
+                a[1].split(',').filter_map(|it| it.split_once(':')).map(|(p, i)| (p.to_string(), i.to_string())).collect();
+            ev_batch(&items)
+        }
+        // clim <jq|yq> <prog>,<prog>,… <input> — the programs combined into one
+        // `(try (P1) catch "E"), (try (P2) catch "E"), …` so that one CLI process evaluates all of them;
+        // bisected when the process crashes or times out
+        "clim" => {
+            let progs: Vec<String> = a[2].split(',').filter_map(|h| String::from_utf8(parse_bytes(h)).ok()).collect();
+            let input = parse_bytes(a[3]);
+            cli_multi(a[1], &progs, &input)
         }
         "cli" => {
             let Ok(p) = String::from_utf8(parse_bytes(a[2])) else { return "BAD-UTF8".into() };
@@ -239,40 +367,62 @@ const EXTREME: &[&str] = &[
 
 /// Templates: `#` is replaced by an extreme operand.
 const TEMPLATES: &[&str] = &[
-    "\"x\" * #", "# * \"ab\"", "\"\" * #", "(\"abc\" * #) | length", "[limit(3; range(#))]", "[limit(3; range(#; #))]", "[limit(3; range(#; #; #))]", "[range(#)] | length",
-    "[range(0; #; #)] | length", "[range(#; #; #)] | length", "[limit(#; repeat(1))] | length", "[limit(3; repeat(#))]", "first(range(#))", "[limit(#; range(10))]", "setpath([#]; 1)",
-    "setpath([#, #]; 1)", "try setpath([#]; 1) catch .", ".[#] = 1", ".[#] |= 1", "[1,2,3] | .[#] = 9", "[1,2,3] | .[#:#] = [9]", "[1,2,3] | .[#:#]", "\"abcdef\" | .[#:#]", ".[#:#]", ".[#]",
-    "[1,2,3] | .[#]", "[1,2,3] | del(.[#])", "[1,2,3] | del(.[#:#])", "[1,2,3] | getpath([#])", "[#] | implode", "[#, #] | implode", "try ([#] | implode) catch .", "[[#]] | implode",
-    "\"a,b\" | [splits(\", *\")]", "\"abc\" | ltrimstr(#)", "# | tostring", "# | tojson", "# | @text", "# | @json", "[#] | @csv", "[#] | @tsv", "# | @base64", "\"#\" | @base64d",
-    "\"!!!#\" | try @base64d catch .", "# | floor", "# | sqrt", "# | pow(.; #)", "pow(#; #)", "log2", "# | exp10", "# | significand", "# | logb", "# | gamma", "# | frexp", "# | ldexp(.; #)", "# | scalb(.; #)",
-    "# | nearbyint", "# | trunc", "# | round", "# | ceil", "# | abs", "# | tostring | tonumber", "# % #", "# / #", "# * #", "# + #", "# - #", "-(#)", "# % 0", "1 % #", "# / 0", "try (# % 0) catch .", "5 % #",
-    "# | tojson | fromjson", "[#] | sort", "[#, #] | unique", "[#, #] | min", "[#,#] | add", "# | splits(\"a\")?", "# as $x | [$x, $x] | add", "[limit(5; # | recurse(. * 2; . < 1e300))]",
-    "[limit(3; # | recurse(. + 1))]", "# | [limit(3; while(true; . * 2))]", "[limit(3; # | until(false; . + 1))]? // 0", "reduce range(#) as $i (0; . + 1)", "reduce range(1000) as $i ([]; [.])  | tojson | length",
-    "reduce range(#) as $i (null; [.]) | tojson | length", "reduce range(300) as $i (null; {a: .}) | tojson | length", "reduce range(400) as $i (null; [.]) | tostring | length", "reduce range(400) as $i (null; [.]) | [..] | length",
-    "reduce range(400) as $i (null; [.]) | flatten", "reduce range(400) as $i (null; [.]) | tojson | fromjson", "reduce range(400) as $i (null; [.]) | walk(.)", "reduce range(400) as $i (null; [.]) | . == .",
-    "reduce range(400) as $i (null; [.]) | [paths] | length", "reduce range(400) as $i (null; [.]) | tostream", "reduce range(400) as $i (null; [.]) | sort", "reduce range(400) as $i (null; [.]) | @json", "reduce range(400) as $i (null; [.])",
-    "reduce range(400) as $i (null; {a: .})", "[limit(400; repeat(\"[\"))] | add | fromjson?", "[limit(#; repeat(\"[\"))] | add | try fromjson catch \"e\"", "def f: f; first(f)?", "def f: f; limit(1; f)", "def f: [f]; first(f)",
-    "def f(x): f(x + 1); first(f(0))", "def f: def g: f; g; limit(1; f)", "def f: 1, f; [limit(#; f)] | length", "def f: 1, f; first(f)", "def r: if . > 0 then . - 1 | r else . end; # | r", "def r: if . < # then . + 1 | r else . end; 0 | r",
-    "[limit(3; def f: 1, f; f)]", "last(range(#))", "[range(#)] | add", "[range(100000)] | map(. * #) | add", "nth(#; range(10))", "nth(#; range(#))", "[.[]?] | .[#:]", "ascii(#)?", "# | ascii?", "[#] | implode | explode",
-    "\"x\" * # | length", "\"x\" * 1e10 | length", "\"ab\" * 1e19", "\"ab\" * 9223372036854775807", "\"\" * 9223372036854775807 | length", "\"abc\" * 4611686018427387904", "[\"x\" * 100000] | .[0] * 100000 | length",
-    "\"x\" * 100000 | . * 100000 | length", "[range(100000)] | map(tostring) | join(\",\") | length", "[limit(20; repeat(\"x\" * 1000))] | add | length", "\"x\" * 1000 | [limit(#; repeat(.))] | length",
-    "tojson * #", "[.] * #", "{} * #", "null * #", "# * null", "{a:1} * {a:#}", "indices(#)", "[1,2,1] | indices(#)", "\"aXbX\" | indices(\"X\") | .[#]", "splits(#)?", "test(#)?", "[match(\"\"; \"g\")] | length",
-    "\"aaa\" | [match(\"a*?\"; \"g\")] | length", "\"x\" * 1000 | [match(\"x*\"; \"g\")] | length", "\"x\" * 5000 | sub(\"(?<a>x)\"; \"\\(.a)\\(.a)\"; \"g\") | length", "\"x\" * 30 | test(\"(x+x+)+y\")", "\"a\" | test(\"(\" * 1000)?",
-    "\"a\" | test(\"a{1000000}\")?", "\"a\" | test(\"(a{1000}){1000}\")?", "@sh \"\\(#)\"", "@uri \"\\(#)\"", "@html \"\\(#)\"", "ltrimstr(#)", "# | ltrimstr(\"a\")", "# | ascii_downcase?", "# | explode?", "# | @base32d?",
-    "# | todate?", "# | strftime(\"%Y\")?", "# | gmtime?", "# | mktime?", "[#,0,1,1,1,1,0,0] | mktime?", "[#,#,#,#,#,#,#,#] | todate?", "# | localtime?", "# | strflocaltime(\"%c\")?", "\"#\" | strptime(\"%s\")?", "# | dateadd(\"seconds\"; #)?",
-    "# | tojson | .[#:#]", "input?", "[inputs]?", "$ENV | length", "env.PATH?", "# | getpath([#])?", "[paths(#)]?", "to_entries?", "with_entries(.value += #)?", "from_entries?", "# | from_entries?", "[{key:#, value:#}] | from_entries?",
-    "[#] | group_by(.)", "[#] | flatten(#)?", "[[[1]]] | flatten(#)?", "[1] | combinations(#)?", "[[1,2],[3,4]] | [combinations] | length", "[range(20)] | map([1,2]) | [limit(3; combinations)]", "[limit(3; [1,2] | combinations(#))]?",
-    "# | tostring | ascii_downcase | ltrimstr(\"1\") | tonumber?", "getpath([#, #, #])?", "paths(..)?", "[limit(5; ..)]", "# | splits(\"\")?", "\"abc\" | [splits(\"\")]", "\"abc\" | sub(\"\"; \"x\"; \"g\")", "\"abc\" | [scan(\"\")] | length",
-    "# | bsearch(#)?", "[1,2,3] | bsearch(#)", "[range(10)] | .[#:#] |= [#]", "[range(10)] | .[2:4] = [range(#)]?", "[range(10)] | del(.[#,#])", "[range(10)] | to_entries | map(select(.key < #)) | length", "input_line_number", "$__loc__",
-    "# | tojson | tojson | tojson | length", "[#] | transpose?", "[[#]] | transpose?", "[[1],[1,2,3]] | transpose", "[[]] * # ?", "# | ascii?", "# | @base64d?", "# | ltrimstr(#)?", "# | trimstr(#)?", "# | abs?", "# | toarray?", "# | have_literal_numbers?",
-    "# | getpath([\"a\"])?", "# | has(#)?", "[1] | has(#)", "{} | has(#)?", "# | in([1])?", "# | contains(#)?", "# | inside(#)?", "# | limit(#; 1, 2)", "[limit(#; 1, 2, 3)]", "[first(range(#; #))]", "[range(#; #)] | length", "until(. > #; . + 1)?",
-    "[.[]? | numbers | . * #]", "[.. | numbers | pow(.; #)]", "[.. | strings | . * #]?", "[.. | arrays | .[#:#]]", "[.. | strings | .[#:#]]", "tostream | tojson", "[tostream] | fromstream(.[])", "fromstream(1 | truncate_stream([[0],#],[[1,0],#]))?",
-    "getpath([#]) = 1", "paths |= .", "delpaths([[#]])", "delpaths([[#, #]])?", "to_entries | from_entries?", "[splits(#; #)]?", "ascii_downcase?", "@base64d?", "implode?", "tojson", "error(#)?", "try error(#) catch .", "try error catch .", "error(null)?",
-    "try error({a:#}) catch .a", ".. |= (numbers | . * #)?", "limit(#; .[]?)", "first(.[]?)", "[.[]?][#]", "$__prog_name?", "splits(\"a\"; null)?", "ascii(65)?", "@json \"\\(#)\\(#)\"", "\"\\(#)\" * 3", "[#] | tojson | fromjson | .[0] == #",
-    "# | . as $x | [range(3)] | map($x)", "# as [$a] | $a", "# as {a: $a} | $a", ". as [$a, [$b]] | [$a, $b]", "[#] | .[0] as $x | $x | tostring", "label $f | range(#) | ., break $f", "[label $f | range(10) | ., (select(. == #) | break $f)]",
-    "getpath([\"a\", #, \"b\"]) = 1", "[.[]?] | sort_by(#)", "[.[]?] | group_by(#)?", "[.[]?] | unique_by(#)", "[.[]?] | min_by(#), max_by(#)", "[#, nan, -0, 0, null] | sort", "[nan] | sort | .[0] | isnan", "[#] | map(isinfinite, isnan, isnormal)",
-    "# | tojson | test(\"e\")", "[limit(3; # | tostring | explode | .[])]", "(# | tostring) * 1000 | length", "# | significand?, drem(.; #)?, ldexp(.; 2)?", "[#, #] | (.[0] | frexp)?", "# | trunc | tostring", "# | @text | tonumber? // \"x\"",
-    "{(# | tostring): 1}", "{\"a\": #} | .a", "{a: #} | tojson", "{a: #} | to_entries", "[{a: #}] | (.[0].a) |= . + 1", "{} | .a.b.c[#] = 1 | tojson | length", "null | [.[#]?, .a?]", "null | .[#:#]", "null | .[#:#] = [1]?", "null | setpath([#:#]; 1)?",
+    "\"x\" * #", "# * \"ab\"", "\"\" * #", "(\"abc\" * #) | length", "[limit(3; range(#))]", "[limit(3; range(#; #))]", "[limit(3; range(#; #; #))]",
+    "[range(#)] | length", "[range(0; #; #)] | length", "[range(#; #; #)] | length", "[limit(#; repeat(1))] | length", "[limit(3; repeat(#))]", "first(range(#))",
+    "[limit(#; range(10))]", "setpath([#]; 1)", "setpath([#, #]; 1)", "try setpath([#]; 1) catch .", ".[#] = 1", ".[#] |= 1", "[1,2,3] | .[#] = 9",
+    "[1,2,3] | .[#:#] = [9]", "[1,2,3] | .[#:#]", "\"abcdef\" | .[#:#]", ".[#:#]", ".[#]", "[1,2,3] | .[#]", "[1,2,3] | del(.[#])", "[1,2,3] | del(.[#:#])",
+    "[1,2,3] | getpath([#])", "[#] | implode", "[#, #] | implode", "try ([#] | implode) catch .", "[[#]] | implode", "\"a,b\" | [splits(\", *\")]",
+    "\"abc\" | ltrimstr(#)", "# | tostring", "# | tojson", "# | @text", "# | @json", "[#] | @csv", "[#] | @tsv", "# | @base64", "\"#\" | @base64d",
+    "\"!!!#\" | try @base64d catch .", "# | floor", "# | sqrt", "# | pow(.; #)", "pow(#; #)", "log2", "# | exp10", "# | significand", "# | logb", "# | gamma",
+    "# | frexp", "# | ldexp(.; #)", "# | scalb(.; #)", "# | nearbyint", "# | trunc", "# | round", "# | ceil", "# | abs", "# | tostring | tonumber", "# % #", "# / #",
+    "# * #", "# + #", "# - #", "-(#)", "# % 0", "1 % #", "# / 0", "try (# % 0) catch .", "5 % #", "# | tojson | fromjson", "[#] | sort", "[#, #] | unique",
+    "[#, #] | min", "[#,#] | add", "# | splits(\"a\")?", "# as $x | [$x, $x] | add", "[limit(5; # | recurse(. * 2; . < 1e300))]", "[limit(3; # | recurse(. + 1))]",
+    "# | [limit(3; while(true; . * 2))]", "[limit(3; # | until(false; . + 1))]? // 0", "reduce range(#) as $i (0; . + 1)", "def f: f; first(f)?",
+    "def f: f; limit(1; f)", "def f: [f]; first(f)", "def f(x): f(x + 1); first(f(0))", "def f: def g: f; g; limit(1; f)", "def f: 1, f; [limit(#; f)] | length",
+    "def f: 1, f; first(f)", "def r: if . > 0 then . - 1 | r else . end; # | r", "def r: if . < # then . + 1 | r else . end; 0 | r", "[limit(3; def f: 1, f; f)]",
+    "last(range(#))", "[range(#)] | add", "[range(100000)] | map(. * #) | add", "nth(#; range(10))", "nth(#; range(#))", "[.[]?] | .[#:]", "ascii(#)?", "# | ascii?",
+    "[#] | implode | explode", "\"x\" * # | length", "\"x\" * 1e10 | length", "\"ab\" * 1e19", "\"ab\" * 9223372036854775807", "\"\" * 9223372036854775807 | length",
+    "\"abc\" * 4611686018427387904", "[\"x\" * 100000] | .[0] * 100000 | length", "\"x\" * 100000 | . * 100000 | length",
+    "[range(100000)] | map(tostring) | join(\",\") | length", "[limit(20; repeat(\"x\" * 1000))] | add | length", "\"x\" * 1000 | [limit(#; repeat(.))] | length",
+    "tojson * #", "[.] * #", "{} * #", "null * #", "# * null", "{a:1} * {a:#}", "indices(#)", "[1,2,1] | indices(#)", "\"aXbX\" | indices(\"X\") | .[#]", "splits(#)?",
+    "test(#)?", "[match(\"\"; \"g\")] | length", "\"aaa\" | [match(\"a*?\"; \"g\")] | length", "\"x\" * 1000 | [match(\"x*\"; \"g\")] | length",
+    "\"x\" * 5000 | sub(\"(?<a>x)\"; \"\\(.a)\\(.a)\"; \"g\") | length", "\"x\" * 30 | test(\"(x+x+)+y\")", "\"a\" | test(\"(\" * 1000)?",
+    "\"a\" | test(\"a{1000000}\")?", "\"a\" | test(\"(a{1000}){1000}\")?", "@sh \"\\(#)\"", "@uri \"\\(#)\"", "@html \"\\(#)\"", "ltrimstr(#)", "# | ltrimstr(\"a\")",
+    "# | ascii_downcase?", "# | explode?", "# | @base32d?", "# | todate?", "# | strftime(\"%Y\")?", "# | gmtime?", "# | mktime?", "[#,0,1,1,1,1,0,0] | mktime?",
+    "[#,#,#,#,#,#,#,#] | todate?", "# | localtime?", "# | strflocaltime(\"%c\")?", "\"#\" | strptime(\"%s\")?", "# | dateadd(\"seconds\"; #)?", "# | tojson | .[#:#]",
+    "input?", "[inputs]?", "$ENV | length", "env.PATH?", "# | getpath([#])?", "[paths(#)]?", "to_entries?", "with_entries(.value += #)?", "from_entries?",
+    "# | from_entries?", "[{key:#, value:#}] | from_entries?", "[#] | group_by(.)", "[#] | flatten(#)?", "[[[1]]] | flatten(#)?", "[1] | combinations(#)?",
+    "[[1,2],[3,4]] | [combinations] | length", "[range(12)] | map([1,2]) | [limit(3; combinations)]", "[limit(3; [1,2] | combinations(#))]?",
+    "# | tostring | ascii_downcase | ltrimstr(\"1\") | tonumber?", "getpath([#, #, #])?", "paths(..)?", "[limit(5; ..)]", "# | splits(\"\")?",
+    "\"abc\" | [splits(\"\")]", "\"abc\" | sub(\"\"; \"x\"; \"g\")", "\"abc\" | [scan(\"\")] | length", "# | bsearch(#)?", "[1,2,3] | bsearch(#)",
+    "[range(10)] | .[#:#] |= [#]", "[range(10)] | .[2:4] = [range(#)]?", "[range(10)] | del(.[#,#])", "[range(10)] | to_entries | map(select(.key < #)) | length",
+    "input_line_number", "$__loc__", "# | tojson | tojson | tojson | length", "[#] | transpose?", "[[#]] | transpose?", "[[1],[1,2,3]] | transpose", "[[]] * # ?",
+    "# | ascii?", "# | @base64d?", "# | ltrimstr(#)?", "# | trimstr(#)?", "# | abs?", "# | toarray?", "# | have_literal_numbers?", "# | getpath([\"a\"])?",
+    "# | has(#)?", "[1] | has(#)", "{} | has(#)?", "# | in([1])?", "# | contains(#)?", "# | inside(#)?", "# | limit(#; 1, 2)", "[limit(#; 1, 2, 3)]",
+    "[first(range(#; #))]", "[range(#; #)] | length", "until(. > #; . + 1)?", "[.[]? | numbers | . * #]", "[.. | numbers | pow(.; #)]", "[.. | strings | . * #]?",
+    "[.. | arrays | .[#:#]]", "[.. | strings | .[#:#]]", "tostream | tojson", "[tostream] | fromstream(.[])", "fromstream(1 | truncate_stream([[0],#],[[1,0],#]))?",
+    "getpath([#]) = 1", "paths |= .", "delpaths([[#]])", "delpaths([[#, #]])?", "to_entries | from_entries?", "[splits(#; #)]?", "ascii_downcase?", "@base64d?",
+    "implode?", "tojson", "error(#)?", "try error(#) catch .", "try error catch .", "error(null)?", "try error({a:#}) catch .a", ".. |= (numbers | . * #)?",
+    "limit(#; .[]?)", "first(.[]?)", "[.[]?][#]", "$__prog_name?", "splits(\"a\"; null)?", "ascii(65)?", "@json \"\\(#)\\(#)\"", "\"\\(#)\" * 3",
+    "[#] | tojson | fromjson | .[0] == #", "# | . as $x | [range(3)] | map($x)", "# as [$a] | $a", "# as {a: $a} | $a", ". as [$a, [$b]] | [$a, $b]",
+    "[#] | .[0] as $x | $x | tostring", "label $f | range(#) | ., break $f", "[label $f | range(10) | ., (select(. == #) | break $f)]", "getpath([\"a\", #, \"b\"]) = 1",
+    "[.[]?] | sort_by(#)", "[.[]?] | group_by(#)?", "[.[]?] | unique_by(#)", "[.[]?] | min_by(#), max_by(#)", "[#, nan, -0, 0, null] | sort",
+    "[nan] | sort | .[0] | isnan", "[#] | map(isinfinite, isnan, isnormal)", "# | tojson | test(\"e\")", "[limit(3; # | tostring | explode | .[])]",
+    "(# | tostring) * 1000 | length", "# | significand?, drem(.; #)?, ldexp(.; 2)?", "[#, #] | (.[0] | frexp)?", "# | trunc | tostring",
+    "# | @text | tonumber? // \"x\"", "{(# | tostring): 1}", "{\"a\": #} | .a", "{a: #} | tojson", "{a: #} | to_entries", "[{a: #}] | (.[0].a) |= . + 1",
+    "{} | .a.b.c[#] = 1 | tojson | length", "null | [.[#]?, .a?]", "null | .[#:#]", "null | .[#:#] = [1]?", "null | setpath([#:#]; 1)?",
+];
+
+/// Programs that build a value nested deeper than the documented tree-depth limits (kept apart so that
+/// a batch never hides other programs behind them).
+const DEEP_TEMPLATES: &[&str] = &[
+    "reduce range(1000) as $i ([]; [.])  | tojson | length", "reduce range(#) as $i (null; [.]) | tojson | length",
+    "reduce range(300) as $i (null; {a: .}) | tojson | length", "reduce range(400) as $i (null; [.]) | tostring | length",
+    "reduce range(400) as $i (null; [.]) | [..] | length", "reduce range(400) as $i (null; [.]) | flatten", "reduce range(400) as $i (null; [.]) | tojson | fromjson",
+    "reduce range(400) as $i (null; [.]) | walk(.)", "reduce range(400) as $i (null; [.]) | . == .", "reduce range(400) as $i (null; [.]) | [paths] | length",
+    "reduce range(400) as $i (null; [.]) | tostream", "reduce range(400) as $i (null; [.]) | sort", "reduce range(400) as $i (null; [.]) | @json",
+    "reduce range(400) as $i (null; [.])", "reduce range(400) as $i (null; {a: .})", "[limit(400; repeat(\"[\"))] | add | fromjson?",
+    "[limit(#; repeat(\"[\"))] | add | try fromjson catch \"e\"",
 ];
 
 const INPUTS: &[&str] = &[
@@ -328,51 +478,126 @@ pub fn gen(tier: Tier, r: &mut Rng, emit: &mut dyn FnMut(String)) {
     for t in TEMPLATES {
         emit(format!("C30 parse {}", hex_bytes(t.as_bytes())));
     }
-    // deep program nesting
-    for n in [50usize, 200, 1000, 5000] {
-        for (o, c) in [("[", "]"), ("(", ")"), ("{a:", "}"), ("-", ""), (".a|", "."), ("if . then ", " else . end"), ("try ", ""), ("\"\\(", ")\""), ("[.[]|", "]"), ("1+", "1"), ("not|", "not")] {
-            let p = format!("{}{}{}", o.repeat(n), if c.is_empty() || o == "1+" || o == ".a|" || o == "not|" { "." } else { "1" }, if o == "1+" || o == ".a|" || o == "not|" { c.to_string() } else { c.repeat(n) });
+    // batches: (program, input) pairs for the child-process leg, programs for the CLI leg
+    let mut evb: Vec<String> = Vec::new();
+    let mut clim: Vec<String> = Vec::new();
+    let batch_ev = scale(150, 100);
+    let batch_cli = scale(40, 25);
+    fn flush_ev(evb: &mut Vec<String>, emit: &mut dyn FnMut(String)) {
+        if !evb.is_empty() {
+            emit(format!("C30 evb {}", evb.join(",")));
+            evb.clear();
+        }
+    }
+    fn flush_cli(clim: &mut Vec<String>, tool: &str, input: &str, emit: &mut dyn FnMut(String)) {
+        if !clim.is_empty() {
+            emit(format!("C30 clim {tool} {} {}", clim.join(","), hex_bytes(input.as_bytes())));
+            clim.clear();
+        }
+    }
+    // deep program nesting: one request per program (a stack overflow must be attributable)
+    let depths: &[usize] = if q { &[200, 2000] } else { &[50, 200, 1000, 5000, 50_000] };
+    for &n in depths {
+        for (o, m, c) in [
+            ("[", "1", "]"), ("(", "1", ")"), ("{a:", "1", "}"), ("-", "1", ""), (".a|", ".", ""), ("if . then ", "1", " else . end"), ("try ", "1", ""),
+            ("\"\\(", "1", ")\""), ("[.[]|", "1", "]"), ("1+", "1", ""), ("not|", "not", ""), (".[", "0", "]"), ("..|", ".", ""), ("-(", "1", ")"), ("1 as $x|", "$x", ""),
+            ("def f:", "1", ";f"), ("reduce . as $x (", "0", ";.)"), ("{\"a\":", "1", "}"), ("@json \"\\(", "1", ")\""), ("?", "", ""), (".", "", "?"),
+        ] {
+            let p = format!("{}{}{}", o.repeat(n), m, c.repeat(n));
+            let p = if o == "?" { format!(".{}", "?".repeat(n)) } else if o == "." { format!(".a{}", "?".repeat(n)) } else { p };
             emit(format!("C30 evx {} {}", hex_bytes(p.as_bytes()), hex_bytes(b"null")));
-            if n <= 1000 || !q {
+            if n <= 2000 && (!q || n == 2000) {
                 emit(format!("C30 cli jq {} {}", hex_bytes(p.as_bytes()), hex_bytes(b"null")));
             }
         }
+        if q {
+            break; // quick: the CLI sees only depth 2000 below
+        }
     }
-    // ---- soups that happen to parse are also evaluated (isolated) -----------------------------
+    if q {
+        for (o, m, c) in [("[", "1", "]"), ("(", "1", ")"), ("-", "1", ""), ("if . then ", "1", " else . end"), (".a|", ".", ""), ("1+", "1", "")] {
+            let p = format!("{}{}{}", o.repeat(2000), m, c.repeat(2000));
+            emit(format!("C30 evx {} {}", hex_bytes(p.as_bytes()), hex_bytes(b"null")));
+            emit(format!("C30 cli jq {} {}", hex_bytes(p.as_bytes()), hex_bytes(b"null")));
+        }
+    }
+    // ---- soups that happen to parse are also evaluated -----------------------------------------
     let mut evaluated = 0;
     for _ in 0..scale(6000, 200_000) {
         let p = program_soup(r);
-        if p.contains("input") || p.contains("halt") || p.contains("env") || p.contains("$ENV") {
+        if p.contains("input") || p.contains("halt") || p.contains("env") || p.contains("$ENV") || p.contains("debug") || p.contains("stderr") {
             continue;
         }
-        if succinctly::jq::parse(&p).is_ok() && p.len() > 2 {
-            let inp = r.pick(INPUTS);
-            emit(format!("C30 evx {} {}", hex_bytes(p.as_bytes()), hex_bytes(inp.as_bytes())));
+        if p.len() > 2 && std::panic::catch_unwind(|| succinctly::jq::parse(&p).is_ok()).unwrap_or(false) {
+            let inp = *r.pick(INPUTS);
+            evb.push(format!("{}:{}", hex_bytes(p.as_bytes()), hex_bytes(inp.as_bytes())));
+            if evb.len() >= batch_ev {
+                flush_ev(&mut evb, emit);
+            }
             evaluated += 1;
-            if evaluated >= scale(250, 20_000) {
+            if evaluated >= scale(300, 20_000) {
                 break;
             }
         }
     }
-    // ---- every template once with each of a few operands, then random compositions -------------
+    flush_ev(&mut evb, emit);
+    // ---- every template with a few operands, then random compositions --------------------------
+    let cli_input = "[1,[2,{\"a\":\"x\"}],\"s\",null,1.5]";
     for t in TEMPLATES {
-        for _ in 0..scale(1, 6) {
+        for k in 0..scale(2, 8) {
             let p = fill(r, t);
-            let inp = r.pick(INPUTS);
-            emit(format!("C30 evx {} {}", hex_bytes(p.as_bytes()), hex_bytes(inp.as_bytes())));
+            let inp = *r.pick(INPUTS);
+            evb.push(format!("{}:{}", hex_bytes(p.as_bytes()), hex_bytes(inp.as_bytes())));
+            if evb.len() >= batch_ev {
+                flush_ev(&mut evb, emit);
+            }
+            if k == 0 && !p.contains("input") && !p.contains("halt") && !p.contains("def ") && !p.contains("label") {
+                clim.push(hex_bytes(p.as_bytes()));
+                if clim.len() >= batch_cli {
+                    flush_cli(&mut clim, "jq", cli_input, emit);
+                }
+            }
         }
     }
-    for i in 0..scale(1200, 60_000) {
+    flush_cli(&mut clim, "jq", cli_input, emit);
+    for i in 0..scale(900, 60_000) {
         let p = composed(r);
-        let inp = r.pick(INPUTS);
-        emit(format!("C30 evx {} {}", hex_bytes(p.as_bytes()), hex_bytes(inp.as_bytes())));
-        if i % 3 == 0 {
-            emit(format!("C30 cli {} {} {}", if i % 12 == 0 { "yq" } else { "jq" }, hex_bytes(p.as_bytes()), hex_bytes(inp.as_bytes())));
+        let inp = *r.pick(INPUTS);
+        evb.push(format!("{}:{}", hex_bytes(p.as_bytes()), hex_bytes(inp.as_bytes())));
+        if evb.len() >= batch_ev {
+            flush_ev(&mut evb, emit);
+        }
+        if i % scale(8, 3) == 0 && !p.contains("input") && !p.contains("halt") && !p.contains("def ") && !p.contains("label") {
+            clim.push(hex_bytes(p.as_bytes()));
+            if clim.len() >= batch_cli {
+                flush_cli(&mut clim, if (i / 8) % 4 == 0 { "yq" } else { "jq" }, cli_input, emit);
+            }
         }
     }
-    for t in TEMPLATES {
+    flush_ev(&mut evb, emit);
+    flush_cli(&mut clim, "jq", cli_input, emit);
+    // programs that build values deeper than the depth limits: their own batches (quick) / one
+    // process each (thorough)
+    let mut deep_cli = Vec::new();
+    for t in DEEP_TEMPLATES {
         let p = fill(r, t);
-        let inp = r.pick(INPUTS);
+        if q {
+            evb.push(format!("{}:{}", hex_bytes(p.as_bytes()), hex_bytes(b"null")));
+        } else {
+            emit(format!("C30 evx {} {}", hex_bytes(p.as_bytes()), hex_bytes(b"null")));
+            emit(format!("C30 cli jq {} {}", hex_bytes(p.as_bytes()), hex_bytes(b"null")));
+        }
+        deep_cli.push(hex_bytes(p.as_bytes()));
+    }
+    flush_ev(&mut evb, emit);
+    if q {
+        emit(format!("C30 clim jq {} {}", deep_cli.join(","), hex_bytes(b"null")));
+    }
+    // a few programs individually through the CLI (exit status of the program itself)
+    for _ in 0..scale(12, 2000) {
+        let t = *r.pick(TEMPLATES);
+        let p = fill(r, t);
+        let inp = *r.pick(INPUTS);
         emit(format!("C30 cli jq {} {}", hex_bytes(p.as_bytes()), hex_bytes(inp.as_bytes())));
     }
     // ---- the guards, exactly ------------------------------------------------------------------
